@@ -163,9 +163,11 @@ class FakeSock:
             raise OSError(errno.EPIPE, "closed")
         if self.peer is None:
             raise OSError(errno.ENOTCONN, "not connected")
-        if self.peer.closed:
-            raise ConnectionResetError(errno.ECONNRESET, "peer closed")
         data = bytes(data)
+        if self.peer.closed:
+            # the peer has hung up (FIN): like a kernel, accept the bytes - they go nowhere; the loss shows as
+            # end-of-file on the next recv, after whatever the peer sent before hanging up has been read
+            return len(data)
         if self.send_limit is not None:
             data = data[:self.send_limit]
         self.peer.rx.extend(data)
